@@ -50,11 +50,52 @@ def message(rng, i):
     return head + body, orc, len(head)
 
 
+def requests(rng):
+    stream, orcs, ends = b"", [], []
+    for k in range(rng.randrange(1, 5)):
+        m, o, hl = message(rng, k)
+        stream += m
+        orcs.append(o)
+        if o == "U":
+            stream += b"0\r\n\r\n"
+            orcs.append("B")
+            break
+        ends.append(len(stream))
+    return stream, orcs, ends
+
+
+def world(rng, i):
+    """the connection and the HTTP layer above it: arrivals, reads, a pair-verify handler that accepts, responses that end"""
+    stream, orcs, ends = requests(rng)
+    if len(stream) > 2500:
+        stream, orcs, ends = requests(rng)
+    evs, arrived = [], 0
+    pv = rng.choice([0.0, 0.02, 0.05])
+    for _ in range(rng.randrange(5, 70)):
+        r = rng.random()
+        if r < 0.25 and arrived < len(stream):
+            k = rng.choice([1, 2, 5, 40, 200, 1500, 10000])
+            evs.append("A%d" % k)
+            arrived += k
+        elif r < 0.82:
+            evs.append("R%d" % rng.choice([1, 2, 16, 100, 512, 4096]))
+        elif r < 0.82 + pv:
+            evs.append("V")
+        else:
+            evs.append("D")
+    if rng.random() < 0.6:
+        evs += ["V"] + [rng.choice(["R16", "R4096", "A50", "D", "R1"]) for _ in range(rng.randrange(1, 8))]
+    return {"id": "pw%d" % i, "kind": "world", "line": "pw %s %s %s" % (stream.hex(), ",".join(evs), ",".join(orcs)), "meta": {"kind": "world"}}
+
+
 def gen(rng, tier):
     cases = []
-    n = 120 if tier == "quick" else 6000
+    n = 160 if tier == "quick" else 8000
     for i in range(n):
         r = i % 4
+        if i % 8 in (1, 5):
+            cases.append(world(rng, i))
+            continue
         if r == 3:
             # plainHeaderEnd by itself: any bytes handed over before (without an empty line), any next bytes
             alpha = [10, 13, 10, 13, 120, 32]
@@ -110,6 +151,8 @@ def nontrivial(c):
 
 
 def outcome_class(c, obs):
+    if c["line"].startswith("pw "):
+        return "world/" + ("secure" if obs.endswith(" s") or " s " in obs else "plain") + ("+withheld" if " z/" in obs else "")
     if c["line"].startswith("he "):
         return "header-end/" + ("none" if obs == "-1" else "found")
     return c["kind"] + ("/unframed" if obs.endswith("/1") else "/framed")
@@ -120,6 +163,23 @@ def oracle(c, obs):
         return "harness failure: " + obs[:80]
     meta = c.get("meta") or {}
     t = c["line"].split(" ")
+    if t[0] == "pw":
+        # from the statement, not from the model: what is handed over in plain text is a prefix of what arrived, in order, and
+        # nothing is handed over once a pair-verify handler has accepted
+        stream, evs, outs = bytes.fromhex(t[1]), t[2].split(","), obs.split(" ")
+        if len(evs) != len(outs):
+            return "missing observations"
+        got, accepted = b"", False
+        for e, o in zip(evs, outs):
+            if e == "V":
+                accepted = True
+            if o.startswith("h:"):
+                if accepted:
+                    return "plain text handed over after a pair-verify handler accepted: " + o[:60]
+                got += bytes.fromhex(o[2:].split("/")[0])
+        if not stream.startswith(got):
+            return "what was handed over in plain text is not a prefix of what arrived"
+        return None
     if t[0] == "he":
         h, b = [bytes.fromhex("" if x == "-" else x) for x in t[1:3]]
         if first_empty_line(h) is not None:
